@@ -742,7 +742,7 @@ impl Session {
             "set_max_height" => {
                 self.st().set_max_height_allowed(a["h"].as_u64().unwrap() as usize);
             }
-            "expect" => {}
+            "expect" | "expect_panic" | "drop_all" => {}
             other => panic!("harness: unknown action {other}"),
         }
     }
@@ -1016,6 +1016,7 @@ pub fn run_behaviour(hist: &[J], max_height: Option<usize>) -> Vec<Mismatch> {
 
 thread_local! {
     pub static ORDER: RefCell<Vec<i64>> = RefCell::new(vec![]);
+    pub static HARNESS_ERRORS: RefCell<Vec<String>> = RefCell::new(vec![]);
 }
 
 pub fn install_sink() {
@@ -1158,10 +1159,16 @@ pub fn record_script(script: &[J], max_height: Option<usize>, run: usize, out: &
     let mut panicked = false;
     let mut user_panic = false;
     for a in script {
-        if a["a"] == "expect" {
+        if a["a"] == "expect" || a["a"] == "expect_panic" {
             continue;
         }
         let r = s.apply(a);
+        if let Err(m) = &r {
+            if m.starts_with("harness:") {
+                // a defect of the harness / script, not of the code under test: make it loud
+                HARNESS_ERRORS.with(|h| h.borrow_mut().push(format!("run {run}: {m} on {a}")));
+            }
+        }
         let msg = match &r {
             Ok(()) => String::new(),
             Err(m) => m.clone(),
